@@ -51,6 +51,7 @@ class Produced:
 
 def programs(tier: str):
     yield from _five(tier)
+    yield from _wrapped(tier)
     b = BOUNDS[tier]
     for n in b["callers"]:
         for rest in itertools.product("ab", repeat=n - 1):
@@ -80,6 +81,15 @@ def programs(tier: str):
                                         "batch": batch,
                                         "variant": variant,
                                     }
+
+
+def _wrapped(tier: str):
+    # the cached function stacked under another haiway wrapper / called from inside scopes: sharing
+    # and isolation must not depend on it
+    for keys in ("aa", "aaa", "aab"):
+        for how in ("timeout", "scoped"):
+            for cancels in (0, 1):
+                yield {"keys": keys, "limit": 1, "expiration": None, "outcome": "value", "cancels": cancels, "batch": 1, "variant": "function", "wrap": how}
 
 
 def _five(tier: str):
@@ -133,6 +143,11 @@ def execute(program, ch: Chooser) -> Result:  # noqa: C901, PLR0912, PLR0915
             async def fn(key):
                 return await body(key)
 
+            if program.get("wrap") == "timeout":
+                from haiway.helpers.timeouted import timeout
+
+                fn = timeout(1000.0)(fn)
+
         # reference model, updated at the instant the caller invokes the cached function
         model: OrderedDict = OrderedDict()  # key -> (inv index, expire)
         misses: list[str] = []
@@ -157,6 +172,15 @@ def execute(program, ch: Chooser) -> Result:  # noqa: C901, PLR0912, PLR0915
             call_log.append((i, key, inv_of[i], now - vtime.START))
 
         async def caller(i: int):
+            if program.get("wrap") == "scoped":
+                from haiway import ctx
+
+                async with ctx.scope(f"caller{i}"):
+                    await caller_body(i)
+            else:
+                await caller_body(i)
+
+        async def caller_body(i: int):
             model_call(i, keys[i])
             try:
                 results[i] = ("value", await fn(keys[i]))
